@@ -641,12 +641,16 @@ crate::harnesses! {
     c03_r_expgolomb_tab_le (quick, "LE stream, gamma tables on", "k in 0..=63, v<=2^64-2; write at offset 0 then read: value, consumption, sentinel") => codec_step::<LE, true, ExpGolomb, _, 1, 0>;
     c03_w64_expgolomb_tab_le (thorough, "LE stream, gamma tables on", "k in 0..=63, v<=2^64-2; write at symbolic offset 0..=64: bits vs definition, lengths") => codec_step::<LE, true, ExpGolomb, _, 0, 64>;
     c03_rt_expgolomb_tab_le (thorough, "LE stream, gamma tables on", "k in 0..=63, v<=2^64-2; full round trip in place at symbolic offset 0..=64") => codec_step::<LE, true, ExpGolomb, _, 2, 64>;
-    c03_w_golomb_be (quick, "BE stream", "b in 1..=64, any v<120b; write at symbolic offset 0..=7 (every bit alignment): bits vs definition, lengths") => codec_step::<BE, false, Golomb<64, {u64::MAX}>, _, 0, 7>;
-    c03_r_golomb_be (quick, "BE stream", "b in 1..=64, any v<120b; write at offset 0 then read: value, consumption, sentinel") => codec_step::<BE, false, Golomb<64, {u64::MAX}>, _, 1, 0>;
+    c03_w_golomb_be (quick, "BE stream", "b in 1..=16, any v<120b; write at symbolic offset 0..=7 (every bit alignment): bits vs definition, lengths") => codec_step::<BE, false, Golomb<16, {u64::MAX}>, _, 0, 7>;
+    c03_w_golomb_b64_be (thorough, "BE stream", "b in 1..=64, any v<120b; write at symbolic offset 0..=7 (every bit alignment): bits vs definition, lengths") => codec_step::<BE, false, Golomb<64, {u64::MAX}>, _, 0, 7>;
+    c03_r_golomb_be (quick, "BE stream", "b in 1..=16, any v<120b; write at offset 0 then read: value, consumption, sentinel") => codec_step::<BE, false, Golomb<16, {u64::MAX}>, _, 1, 0>;
+    c03_r_golomb_b64_be (thorough, "BE stream", "b in 1..=64, any v<120b; write at offset 0 then read: value, consumption, sentinel") => codec_step::<BE, false, Golomb<64, {u64::MAX}>, _, 1, 0>;
     c03_w64_golomb_be (thorough, "BE stream", "b in 1..=64, any v<120b; write at symbolic offset 0..=64: bits vs definition, lengths") => codec_step::<BE, false, Golomb<64, {u64::MAX}>, _, 0, 64>;
     c03_rt_golomb_be (thorough, "BE stream", "b in 1..=64, any v<120b; full round trip in place at symbolic offset 0..=64") => codec_step::<BE, false, Golomb<64, {u64::MAX}>, _, 2, 64>;
-    c03_w_golomb_le (quick, "LE stream", "b in 1..=64, any v<120b; write at symbolic offset 0..=7 (every bit alignment): bits vs definition, lengths") => codec_step::<LE, false, Golomb<64, {u64::MAX}>, _, 0, 7>;
-    c03_r_golomb_le (quick, "LE stream", "b in 1..=64, any v<120b; write at offset 0 then read: value, consumption, sentinel") => codec_step::<LE, false, Golomb<64, {u64::MAX}>, _, 1, 0>;
+    c03_w_golomb_le (quick, "LE stream", "b in 1..=16, any v<120b; write at symbolic offset 0..=7 (every bit alignment): bits vs definition, lengths") => codec_step::<LE, false, Golomb<16, {u64::MAX}>, _, 0, 7>;
+    c03_w_golomb_b64_le (thorough, "LE stream", "b in 1..=64, any v<120b; write at symbolic offset 0..=7 (every bit alignment): bits vs definition, lengths") => codec_step::<LE, false, Golomb<64, {u64::MAX}>, _, 0, 7>;
+    c03_r_golomb_le (quick, "LE stream", "b in 1..=16, any v<120b; write at offset 0 then read: value, consumption, sentinel") => codec_step::<LE, false, Golomb<16, {u64::MAX}>, _, 1, 0>;
+    c03_r_golomb_b64_le (thorough, "LE stream", "b in 1..=64, any v<120b; write at offset 0 then read: value, consumption, sentinel") => codec_step::<LE, false, Golomb<64, {u64::MAX}>, _, 1, 0>;
     c03_w64_golomb_le (thorough, "LE stream", "b in 1..=64, any v<120b; write at symbolic offset 0..=64: bits vs definition, lengths") => codec_step::<LE, false, Golomb<64, {u64::MAX}>, _, 0, 64>;
     c03_rt_golomb_le (thorough, "LE stream", "b in 1..=64, any v<120b; full round trip in place at symbolic offset 0..=64") => codec_step::<LE, false, Golomb<64, {u64::MAX}>, _, 2, 64>;
     c03_w_minbin_be (quick, "BE stream", "u in 1..2^64, v<u; write at symbolic offset 0..=7 (every bit alignment): bits vs definition, lengths") => codec_step::<BE, false, MinBin, _, 0, 7>;
